@@ -103,7 +103,8 @@ static EbErrorType svt_dec_handle_ctor(EbDecHandle **   decHandleDblPtr,
     EbErrorType return_error = EB_ErrorNone;
 
     // Allocate Memory
-    EbDecHandle *dec_handle_ptr = (EbDecHandle *)malloc(sizeof(EbDecHandle));
+    // zero-initialised: picture-buffer and reference pointers must read as "none" until a frame sets them
+    EbDecHandle *dec_handle_ptr = (EbDecHandle *)calloc(1, sizeof(EbDecHandle));
     *decHandleDblPtr            = dec_handle_ptr;
     if (dec_handle_ptr == (EbDecHandle *)NULL)
         return EB_ErrorInsufficientResources;
@@ -144,6 +145,9 @@ static void copy_even(uint8_t *luma, uint32_t wd, uint32_t ht, uint32_t stride, 
 }
 /* Copy from recon buffer to out buffer! */
 int svt_dec_out_buf(EbDecHandle *dec_handle_ptr, EbBufferHeaderType *p_buffer) {
+    /* nothing has been decoded (or the frame was rejected before a buffer was assigned): no output */
+    if (dec_handle_ptr->cur_pic_buf[0] == NULL)
+        return 0;
     EbPictureBufferDesc *recon_picture_buf = dec_handle_ptr->cur_pic_buf[0]->ps_pic_buf;
     EbSvtIOFormat *      out_img           = (EbSvtIOFormat *)p_buffer->p_buffer;
 
